@@ -40,7 +40,7 @@ func c18Families(d int) []explore.Family {
 }
 
 func C18(tier string) int {
-	d, budget := 4, 120*time.Second
+	d, budget := 5, 150*time.Second
 	if tier == "thorough" {
 		d, budget = 6, 20*time.Minute
 	}
